@@ -365,17 +365,26 @@ def py_tables(func, pid, xid):
     return tables
 
 
+def dual_tag(p):
+    """the dual value injected on the p-th class constraint: -1/4, 3/4, -5/4, 7/4, ... (both signs, pairwise
+    distinct, never 0, exact in binary floating point); mirror of Model.ClassDump.dual_tag"""
+    return (-1.0 if p % 2 == 0 else 1.0) * (2 * p + 1) / 4.0
+
+
+POISON = 12345.5
+
+
 def py_duals(func):
-    """tag the p-th class constraint with dual value p, then read the real accessor (objects sitting in the tables
-    are first poisoned with -1: a table that still holds objects of a previous generation reports -1)"""
+    """store dual_tag(p) as dual value of the p-th class constraint, then read the real accessor (objects sitting in
+    the tables are first poisoned: a table that still holds objects of a previous generation reports the poison)"""
     from PEPit.constraint import Constraint
     for df in func.tables_of_constraints.values():
         for row in df.values:
             for el in row:
                 if isinstance(el, Constraint):
-                    el._dual_variable_value = -1.0
+                    el._dual_variable_value = POISON
     for k, c in enumerate(func.list_of_class_constraints):
-        c._dual_variable_value = float(k)
+        c._dual_variable_value = dual_tag(k)
     out = []
     duals = func.get_class_constraints_duals()
     for cname in [k for k in table_order(func) if k in duals] + [k for k in duals if k not in func.tables_of_constraints]:
